@@ -645,7 +645,7 @@ impl Lmdb {
         key.extend(addr.author.as_slice());
         let dlen = std::cmp::min(addr.d.len(), 182);
         key.extend(&[dlen as u8]); // the length itself in one byte
-        if dlen <= PADLEN {
+        if addr.d.len() <= PADLEN {
             key.extend(addr.d.as_slice());
             key.extend(core::iter::repeat(0).take(PADLEN - dlen));
         } else {
